@@ -76,7 +76,11 @@ def scn_cancel(ctx):
         if not is_fn and e.name != "f_nocancel":
             ok = ctx.check("completes-after-refused-cancel", fin[0] in ("value", "error"), "%s: all cancels refused, outcome %r" % (name, fin))
     # retry: no delegate submission after any cancel() returned
-    direct = name == "retry" or name.split(":", 1)[-1].split("+")[0] == "retry"
+    # the recorded delegate must BE the retry executor's delegate, and the cancel() must be sure to
+    # reach the RetryFuture: a throttle layer above it may refuse a cancel in its own hand-over window
+    # without ever forwarding it
+    _layers = name.split(":", 1)[-1].split("+")
+    direct = name == "retry" or (_layers[0] == "retry" and not any(l in ("throttle", "throttle_block") for l in _layers[1:]))
     if "retry" in name and any_rets and direct:
         # (only where the recorded delegate IS the retry executor's delegate)
         s0 = any_rets[0]["seq"]
